@@ -10,7 +10,10 @@ Require Import ExtrOcamlBasic.
    6 textutils.abbreviate (str)
    7 Text.from_latex (str, dectable)
    8 number LabelStyle.format_labels (n)
-   9 alpha LabelStyle.format_label (entry) *)
+   9 alpha LabelStyle.format_label (entry)
+   10 a history of calls through the public entry points: the model is a function, so the answer to
+      every call is the answer to that call alone -- ((cfg, db, cites?, templates, dectable) ...), and the
+      caller's citation list is never modified (flag 1) *)
 Definition e_key3 (e : entry) : sexp :=
   let '(a, b, c) := sorting_key e in L [e_str (e_key e); e_str a; e_str b; e_str c].
 Definition dispatch (fn : Z) (a : sexp) : sexp :=
@@ -29,6 +32,9 @@ Definition dispatch (fn : Z) (a : sexp) : sexp :=
   | 7%Z => e_tres e_ftext (from_latex (d_dec (d_nth a 1)) (d_str (d_nth a 0)))
   | 8%Z => e_res (e_list e_str) (Ok (number_labels (repeat tt (d_nat (d_nth a 0)))))
   | 9%Z => e_res e_str (format_label (d_entry (d_nth a 0)))
+  | 10%Z => e_list (fun c => L [e_tres (e_list e_fentry)
+             (format_bibliography (d_cfg (d_nth c 0)) (d_dec (d_nth c 4)) (d_templates (d_nth c 3))
+                (d_list d_entry (d_nth c 1)) (d_opt (d_list d_str) (d_nth c 2))); A 1%Z]) (d_items a)
   | _ => L []
   end.
 
